@@ -107,6 +107,8 @@ def live_calls(fn):
 
 
 def check_stride(ctx, P, mod, lanes, nxt):
+    from . import runshape
+    ctx.guard("shape-eval", "simd block runs@%s" % P.cfg, lambda: runshape.check(ctx, P, P.cfg, simd_only=True))
     fn = P.fn("hashing::sha2::impl256::%s::digest_block" % mod)
     W = lanes * 64
     # loop guard
